@@ -4,6 +4,7 @@ import (
 	"fmt"
 	"go/token"
 	"go/types"
+	"os"
 	"sort"
 	"strings"
 
@@ -756,7 +757,17 @@ func prefixExpansionShape(fn *ssa.Function) (bool, string) {
 		return false, "expansion does not take one string"
 	}
 	pa := fn.Params[0]
-	same := func(v ssa.Value) bool { return v == ssa.Value(pa) }
+	// the prefix itself, or its bytes (`for i, ch := range []byte(prefix)`)
+	same := func(v ssa.Value) bool {
+		if v == ssa.Value(pa) {
+			return true
+		}
+		if cv, ok := v.(*ssa.Convert); ok && cv.X == ssa.Value(pa) {
+			_, isSl := cv.Type().Underlying().(*types.Slice)
+			return isSl
+		}
+		return false
+	}
 	elemOp := func(v ssa.Value) (string, bool) {
 		v = stripIntConv(v)
 		bo, ok := v.(*ssa.BinOp)
@@ -764,7 +775,7 @@ func prefixExpansionShape(fn *ssa.Function) (bool, string) {
 			return "", false
 		}
 		x, idx, ok := elemRead(stripIntConv(bo.X))
-		if !ok || x != ssa.Value(pa) || fullRangeInduction(idx, same) == nil {
+		if !ok || !same(x) || fullRangeInduction(idx, same) == nil {
 			return "", false
 		}
 		k, ok := constInt(bo.Y)
@@ -790,6 +801,9 @@ func prefixExpansionShape(fn *ssa.Function) (bool, string) {
 			ln := lc.Lin(ms.Len)
 			want := lc.LenLin(pa).addConst(1)
 			if !linEq(ln, want) {
+				if os.Getenv("BCHVERIF_DEBUG") != "" {
+					fmt.Fprintf(os.Stderr, "prefixExpansionShape: make len %s want %s\n", lc.Format(ln), lc.Format(want))
+				}
 				continue
 			}
 			low, zero := false, false
@@ -803,7 +817,11 @@ func prefixExpansionShape(fn *ssa.Function) (bool, string) {
 					if !ok {
 						continue
 					}
-					if kind, ok := elemOp(st.Val); ok && kind == "low" && fullRangeInduction(ia.Index, same) != nil {
+					kind, okE := elemOp(st.Val)
+					if os.Getenv("BCHVERIF_DEBUG") != "" {
+						fmt.Fprintf(os.Stderr, "prefixExpansionShape store %s: elemOp=%q,%v fullRange=%v\n", exprString(st.Val), kind, okE, fullRangeInduction(ia.Index, same) != nil)
+					}
+					if okE && kind == "low" && fullRangeInduction(ia.Index, same) != nil {
 						low = true
 					}
 					if k, ok := constInt(st.Val); ok && k == 0 && linEq(lc.Lin(ia.Index), lc.LenLin(pa)) {
